@@ -144,7 +144,23 @@ def artefact_features(art):
     return sorted(feats)
 
 
+def stripe_features(log):
+    """mechanism discriminators taken from the stripe-geometry monitor of C10 run over the streams of this very compilation"""
+    from checks import c10
+
+    found = {}
+    for call in log.calls:
+        try:
+            c10.analyse_call(call, lambda mech, msg: found.setdefault(mech, msg), {})
+        except Exception:
+            continue
+    return sorted("c10-" + m.replace(":", "-") for m in found)
+
+
 def run_case(case):
+    from vv import compile as vc
+
+    log = vc.StreamLog().install()
     c = campaign.Compiled(case)
     counters = {"programs": 1, "compiled_ok": 0, "executed": 0, "outputs_compared": 0, "exact_outputs_compared": 0, "approx_outputs_compared": 0, "elements_compared": 0,
                 "poison_pairs": 0, "inconclusive_unmodelled": 0}
@@ -221,7 +237,7 @@ def run_case(case):
                         continue
                     bad = np.argwhere(diff > allowed)
                     kinds = ",".join(net.info.get("kinds", []))
-                    feats = net_features(net) + artefact_features(c.art)
+                    feats = net_features(net) + artefact_features(c.art) + stripe_features(log)
                     if diff.max() > 1 and "int16-conv-int32-bias" in feats:
                         feats.remove("int16-conv-int32-bias")  # single instead of double rounding explains one LSB only
                     mech = "output-differs-from-source:%s:%s" % (klass, (net.info["family"].split(":")[-1] + ("+" + "+".join(feats) if feats else "")) if klass == "approx" else ("+".join(feats) if feats else "maxdiff>%d" % min(int(diff.max()), 3)))
